@@ -296,9 +296,9 @@ Proof. repeat split. destruct r; cbn; auto. Qed.
 
 (* ---------------------------------------------------------------- the interface template on model structs *)
 Definition key_g (k : str) : gkey := if rust_ident_name k then GId k else GStr (escape_js k).
-Lemma key_g_ok k : kf_key_other_number k = false -> gkey_ok (key_g k) = true.
-Proof. unfold key_g, kf_key_other_number. intros Hk. destruct (rust_ident_name k) eqn:E; cbn [gkey_ok].
-  - cbn [andb] in Hk. apply negb_false_iff in Hk. exact Hk.
+Lemma key_g_ok k : gkey_ok (key_g k) = true.
+Proof. unfold key_g. destruct (rust_ident_name k) eqn:E; cbn [gkey_ok].
+  - apply rust_ident_is_ident. exact E.
   - exact (str_hole_message k). Qed.
 Definition listed_fields (s : c_struct) : list c_field := filter (fun f => negb (c_skipped (cf_serde f))) (cs_fields s).
 Definition field_member (g : c_cfg) (s : c_struct) (f : c_field) : gmember :=
@@ -309,20 +309,19 @@ Definition struct_toks (g : c_cfg) (s : c_struct) : list tk :=
 Definition type_in_budget (g : c_cfg) (t : qty) : bool :=
   leaves_ok g (pts (qtts t)) && (tdepth (pts (qtts t)) <? TYF).
 
-Lemma field_member_good g s f : kf_key_other_number (field_ser g s f) = false -> type_in_budget g (cf_ty f) = true -> good_member (field_member g s f).
-Proof. intros Hk H. apply andb_true_iff in H as [Hl Hd]. apply Nat.ltb_lt in Hd. split; [apply key_g_ok; exact Hk|].
+Lemma field_member_good g s f : type_in_budget g (cf_ty f) = true -> good_member (field_member g s f).
+Proof. intros H. apply andb_true_iff in H as [Hl Hd]. apply Nat.ltb_lt in Hd. split; [apply key_g_ok|].
   intros rest. cbn [field_member gm_toks]. apply render_ptype; [exact Hl|exact Hd|apply stop_semi]. Qed.
 
 Theorem interface_tokens_ok g s rest :
   is_binding_name (cs_name s) = true ->
-  forallb (fun f => negb (kf_key_other_number (field_ser g s f)) && type_in_budget g (cf_ty f)) (listed_fields s) = true ->
+  forallb (fun f => type_in_budget g (cf_ty f)) (listed_fields s) = true ->
   exists asts, p_item (struct_toks g s ++ rest) = Some (IInterface (cs_name s) [] None asts [], rest) /\
                item_ok (IInterface (cs_name s) [] None asts []) = true.
 Proof. intros Hn Hf. unfold struct_toks.
   destruct (skeleton_interface (cs_name s) (map (field_member g s) (listed_fields s)) rest Hn) as [asts [E [_ Hok]]].
   - rewrite Forall_forall. intros m Hm. apply in_map_iff in Hm as [f [<- Hin]].
-    rewrite forallb_forall in Hf. specialize (Hf f Hin). apply andb_true_iff in Hf as [Hk Ht]. apply negb_true_iff in Hk.
-    apply field_member_good; assumption.
+    rewrite forallb_forall in Hf. apply field_member_good, Hf, Hin.
   - exists asts. split; assumption. Qed.
 
 (* ---------------------------------------------------------------- the enum alias template *)
@@ -356,7 +355,7 @@ Proof. intros Hn Hne. unfold enum_toks. cbn [app]. rewrite p_item_alias. rewrite
 Lemma tokens_example :
   toks_of (interface_chunks g0 ex_struct) = struct_toks g0 ex_struct /\
   lexed (interface_chunks g0 ex_struct) = struct_toks g0 ex_struct /\
-  forallb (fun f => negb (kf_key_other_number (field_ser g0 ex_struct f)) && type_in_budget g0 (cf_ty f)) (listed_fields ex_struct) = true /\
+  forallb (fun f => type_in_budget g0 (cf_ty f)) (listed_fields ex_struct) = true /\
   lex_module (render_m g0 (pts (L "HashMap<String, Vec<Option<(User, i32)>>>"))) = rtoks g0 (pts (L "HashMap<String, Vec<Option<(User, i32)>>>")).
 Proof. vm_compute. repeat split. Qed.
 
